@@ -10,8 +10,10 @@ import (
 
 // lifeState is a state of the lifecycle product automaton (DESIGN §2.2 A9).
 type lifeState struct {
-	state int // index in the State enum atom
+	state int // 0 shut down, 1 running (any of Leader/Follower/PreCandidate/Candidate)
 	open  int // 0 log closed, 1 log open
+	conf  int // 0 no configuration (nil), 1 has a configuration
+	flags int // bit i = value of the i-th boolean field of Raft that a lifecycle method assigns a constant to
 }
 
 // ruleLifecycle: C18 LIFECYCLE.
@@ -30,12 +32,52 @@ func ruleLifecycle() *Rule {
 				return missing(id, "(*Raft).restore")
 			}
 			stateAtom := p.StateAtom()
-			SD := enumIdx(stateAtom, "Shutdown")
+			SDi := enumIdx(stateAtom, "Shutdown")
+			const SD = 0
+			runningMask := (uint32(1)<<uint(len(stateAtom.Vals)) - 1) &^ (1 << uint(SDi))
+			// boolean fields of Raft that the lifecycle methods (or restore) assign constants to are part of the
+			// abstract state: their value decides what the next lifecycle call does (e.g. "was stopped")
+			var flagNames []string
+			for _, m := range append([]string{"(*Raft).restore"}, methods...) {
+				fn := p.Func(m)
+				if fn == nil {
+					continue
+				}
+				p.discover(fn, func(a *Analysis, f *Frame, in ssa.Instruction) {
+					if s, name := raftFieldStore(in); s != nil {
+						if _, ok := constBool(s.Val); ok {
+							for _, x := range flagNames {
+								if x == name {
+									return
+								}
+							}
+							flagNames = append(flagNames, name)
+						}
+					}
+				})
+			}
+			sort.Strings(flagNames)
+			if len(flagNames) > 4 {
+				flagNames = flagNames[:4]
+			}
 			type useOfClosed struct{ what, pos string }
 			// post computes the post-states of calling fn in pre-state s, and the Log uses on a closed log.
 			post := func(fn *ssa.Function, s lifeState) ([]lifeState, []useOfClosed) {
 				st := p.StateAtom()
-				sp := NewSpace(st, GhostAtom("log", "closed", "open"))
+				// Only Stop and start move a node into or out of Shutdown; the background activity that runs
+				// while the mutex is released moves it among the running roles only. The rule therefore
+				// keeps the atom across unlock windows and widens it among the running roles itself.
+				st.Stable = true
+				// nil-ness of the configuration: assigned by Bootstrap/start/restore, never reset to nil
+				cf := CmpAtom("configuration?nil", "r.configuration", "nil")
+				cf.Stable = true
+				atoms := []*Atom{st, GhostAtom("log", "closed", "open"), cf}
+				for _, fl := range flagNames {
+					b := BoolAtom(fl, "r."+fl)
+					b.Stable = true
+					atoms = append(atoms, b)
+				}
+				sp := NewSpace(atoms...)
 				a := NewAnalysis(p, sp)
 				var uses []useOfClosed
 				seen := map[string]bool{}
@@ -62,19 +104,51 @@ func ruleLifecycle() *Rule {
 							}
 						}
 					}
+					if _, ok := a.isSectionEnd(in); ok {
+						return sp.Map(stt, 0, func(pt, old int) uint32 {
+							if old == SDi {
+								return 1 << uint(SDi)
+							}
+							return runningMask
+						})
+					}
 					if _, ok := exitPoint(in); ok && f.Parent == nil {
 						a.Observe("EXIT", f, in, stt)
 					}
 					return stt
 				}
-				entry := sp.Filter(sp.Filter(sp.Top(), 0, 1<<uint(s.state)), 1, 1<<uint(s.open))
+				pre := uint32(1) << uint(SDi)
+				if s.state == 1 {
+					pre = runningMask
+				}
+				entry := sp.Filter(sp.Filter(sp.Top(), 0, pre), 1, 1<<uint(s.open))
+				if s.conf == 0 {
+					entry = sp.Filter(entry, 2, 1<<EQ)
+				} else {
+					entry = sp.Filter(entry, 2, 1<<LT|1<<GT)
+				}
+				for i := range flagNames {
+					entry = sp.Filter(entry, 3+i, 1<<uint((s.flags>>uint(i))&1))
+				}
 				a.RunFrame(NewRootFrame(fn), entry)
 				var outs []lifeState
 				got := map[lifeState]bool{}
 				for _, o := range a.SortedObs() {
 					for pt := 0; pt < sp.Size; pt++ {
 						if o.State.Has(pt) {
-							ls := lifeState{sp.Val(pt, 0), sp.Val(pt, 1)}
+							run := 1
+							if sp.Val(pt, 0) == SDi {
+								run = 0
+							}
+							cfv := 1
+							if sp.Val(pt, 2) == EQ {
+								cfv = 0
+							}
+							fl := 0
+							for i := range flagNames {
+								fl |= sp.Val(pt, 3+i) << uint(i)
+							}
+							ls := lifeState{run, sp.Val(pt, 1), cfv, fl}
 							if !got[ls] {
 								got[ls] = true
 								outs = append(outs, ls)
@@ -86,16 +160,34 @@ func ruleLifecycle() *Rule {
 					if outs[i].state != outs[j].state {
 						return outs[i].state < outs[j].state
 					}
-					return outs[i].open < outs[j].open
+					if outs[i].open != outs[j].open {
+						return outs[i].open < outs[j].open
+					}
+					if outs[i].conf != outs[j].conf {
+						return outs[i].conf < outs[j].conf
+					}
+					return outs[i].flags < outs[j].flags
 				})
 				return outs, uses
 			}
 			name := func(s lifeState) string {
-				return fmt.Sprintf("(%s, log %s)", stateAtom.Labels[s.state], []string{"closed", "open"}[s.open])
+				fl := ""
+				for i, n := range flagNames {
+					fl += fmt.Sprintf(", %s=%v", n, (s.flags>>uint(i))&1 == 1)
+				}
+				return fmt.Sprintf("(%s, log %s, %s%s)", []string{"shut down", "running"}[s.state], []string{"closed", "open"}[s.open], []string{"no configuration", "configured"}[s.conf], fl)
 			}
 			// initial state: NewRaft sets state := Shutdown and calls restore() on the new node
 			var out []Obligation
-			init, _ := post(restore, lifeState{SD, 0})
+			init0, _ := post(restore, lifeState{SD, 0, 0, 0})
+			var init []lifeState
+			okInit := len(init0) > 0
+			for _, s := range init0 {
+				if s.state != SD || s.open != 1 {
+					okInit = false
+				}
+				init = append(init, s)
+			}
 			nr := p.Func("NewRaft")
 			initOb := Obligation{Rule: id, Construct: "initial state left by NewRaft", Pos: p.Pos(nr.Pos())}
 			callsRestore := false
@@ -106,12 +198,16 @@ func ruleLifecycle() *Rule {
 					}
 				}
 			}
-			if !callsRestore || len(init) != 1 || init[0] != (lifeState{SD, 1}) {
+			if !callsRestore || !okInit {
 				initOb.Verdict = Undecided
 				initOb.Detail = fmt.Sprintf("NewRaft calls restore: %v; restore from (Shutdown, closed) gives %d state(s)", callsRestore, len(init))
 				return append(out, initOb)
 			}
-			initOb.Verdict, initOb.Detail = Discharged, "NewRaft calls restore(), which opens the log: "+name(init[0])
+			var initNames []string
+			for _, s := range init {
+				initNames = append(initNames, name(s))
+			}
+			initOb.Verdict, initOb.Detail = Discharged, "NewRaft calls restore(), which opens the log: "+strings.Join(initNames, " or ")
 			out = append(out, initOb)
 
 			// exhaustive exploration
@@ -120,8 +216,12 @@ func ruleLifecycle() *Rule {
 				m    string
 				to   lifeState
 			}
-			reach := map[lifeState][]string{init[0]: {"NewRaft"}}
-			work := []lifeState{init[0]}
+			reach := map[lifeState][]string{}
+			var work []lifeState
+			for _, s := range init {
+				reach[s] = []string{"NewRaft"}
+				work = append(work, s)
+			}
 			var edges []edge
 			badReported := map[string]bool{}
 			nTrans := 0
@@ -147,11 +247,16 @@ func ruleLifecycle() *Rule {
 					}
 					for _, t := range tos {
 						edges = append(edges, edge{s, m, t})
+						bad := t.state != SD && t.open == 0
 						if _, ok := reach[t]; !ok {
 							reach[t] = append(append([]string{}, reach[s]...), strings.TrimPrefix(m, "(*Raft)."))
-							work = append(work, t)
+							if !bad {
+								// a state that violates the invariant is reported once, where it is entered; what
+								// happens after it is not explored
+								work = append(work, t)
+							}
 						}
-						if t.state != SD && t.open == 0 {
+						if bad {
 							key := "running node with closed log after " + m + " from " + name(s)
 							if !badReported[key] {
 								badReported[key] = true
